@@ -4,15 +4,21 @@
    of nodes), node k's next is k + 1, the node after the last one is the end sentinel n + 1.
 
      void sort() { if(endItem.prev == 0 || _begin.item == endItem.prev) return;  QuickSort::sort(_begin.item, endItem.prev); }
-     static void sort(Item* left, Item* right) {
-       Item* ptr0, * ptr1, * ptr2;  ptr0 = ptr1 = ptr2 = left;  const T& pivot = left->value;
-       do { ptr2 = ptr2->next;
-            if(ptr2->value < pivot) { ptr0 = ptr1; ptr1 = ptr1->next; swap(ptr1, ptr2); }
-       } while(ptr2 != right);
-       swap(left, ptr1);
-       if(ptr1 != right) ptr1 = ptr1->next;
-       if(left != ptr0) sort(left, ptr0);
-       if(ptr1 != right) sort(ptr1, right); }
+     static void sort(Item* left, Item* right, usize count) {          // count = items in [left, right]
+       for(;;) {
+         Item* ptr0, * ptr1, * ptr2;  ptr0 = ptr1 = ptr2 = left;  const T& pivot = left->value;  usize lessCount = 0;
+         do { ptr2 = ptr2->next;
+              if(ptr2->value < pivot) { ptr0 = ptr1; ptr1 = ptr1->next; swap(ptr1, ptr2); ++lessCount; }
+         } while(ptr2 != right);
+         swap(left, ptr1);
+         if(ptr1 != right) ptr1 = ptr1->next;
+         usize greaterCount = count - 1 - lessCount;
+         if(lessCount < greaterCount) { if(lessCount > 1) sort(left, ptr0, lessCount);       // the smaller part recursively,
+                                        if(greaterCount <= 1) return;  left = ptr1; count = greaterCount; }   // the larger in the loop
+         else { if(greaterCount > 1) sort(ptr1, right, greaterCount);
+                if(lessCount <= 1) return;  right = ptr0; count = lessCount; } } }
+   (BoundedDepth = FALSE is the code as it was: both parts sorted by recursive calls, left part first - one stack frame per
+   item on a descending list, a stack overflow at about 20000 items in a thread with a small stack.)
 
    The recursion is an explicit stack of pending (left, right) calls (the first recursive call runs to completion
    before the second starts, as in the code).  Every initial state is one input sequence; TLC explores ALL inputs up
@@ -20,24 +26,27 @@
    pointer never leaves [left, right] (it would read the end sentinel), every recursive call gets at least two
    nodes, (c) termination within a quadratic number of steps.                                                     *)
 EXTENDS RefSeq
-VARIABLES inp, vals, stack, pc, left, right, p0, p1, p2, steps
-svars == <<inp, vals, stack, pc, left, right, p0, p1, p2, steps, st, last>>
+CONSTANT BoundedDepth      \* TRUE: the repaired code (larger part in the loop); FALSE: the code as found
+VARIABLES inp, vals, stack, pc, left, right, p0, p1, p2, steps, dep, maxdep
+\* stack: pending calls <<left, right, recursion depth of the frame that will run it>>; dep: depth of the running frame
+svars == <<inp, vals, stack, pc, left, right, p0, p1, p2, steps, dep, maxdep, st, last>>
 
 N == Len(inp)
 SwapV(f, a, b) == [f EXCEPT ![a] = f[b], ![b] = f[a]]
 
 SInit == /\ inp \in BSeqs /\ vals = inp /\ stack = <<>> /\ pc = "start" /\ left = 0 /\ right = 0
-         /\ p0 = 0 /\ p1 = 0 /\ p2 = 0 /\ steps = 0
+         /\ p0 = 0 /\ p1 = 0 /\ p2 = 0 /\ steps = 0 /\ dep = 0 /\ maxdep = 0
          /\ st = [kind |-> <<"list", "list">>, c |-> <<[k \in 1..Len(inp) |-> El(inp[k], Fresh)], <<>> >>]
          /\ last = <<"sort", 1, 0, 0, NoRes, NoB>>
 
 Start == /\ pc = "start"
          /\ IF N <= 1 THEN pc' = "done" /\ stack' = <<>>                       \* empty or one element: return
-            ELSE pc' = "call" /\ stack' = << <<1, N>> >>
-         /\ UNCHANGED <<vals, left, right, p0, p1, p2>>
+            ELSE pc' = "call" /\ stack' = << <<1, N, 1>> >>
+         /\ UNCHANGED <<vals, left, right, p0, p1, p2, dep, maxdep>>
 Call == /\ pc = "call"
         /\ left' = stack[1][1] /\ right' = stack[1][2] /\ stack' = Tail(stack)
         /\ p0' = stack[1][1] /\ p1' = stack[1][1] /\ p2' = stack[1][1]
+        /\ dep' = stack[1][3] /\ maxdep' = IF stack[1][3] > maxdep THEN stack[1][3] ELSE maxdep
         /\ pc' = "loop" /\ UNCHANGED vals
 Loop == /\ pc = "loop"
         /\ LET q2 == p2 + 1 IN                                                 \* ptr2 = ptr2->next
@@ -46,16 +55,21 @@ Loop == /\ pc = "loop"
               THEN p0' = p1 /\ p1' = p1 + 1 /\ vals' = SwapV(vals, p1 + 1, q2)
               ELSE UNCHANGED <<p0, p1, vals>>
            /\ pc' = IF q2 = right THEN "post" ELSE "loop"
-        /\ UNCHANGED <<stack, left, right>>
+        /\ UNCHANGED <<stack, left, right, dep, maxdep>>
 Post == /\ pc = "post"
         /\ vals' = SwapV(vals, left, p1)
         /\ LET q1 == IF p1 # right THEN p1 + 1 ELSE p1
-               fl == IF left # p0 THEN << <<left, p0>> >> ELSE <<>>
-               fr == IF q1 # right THEN << <<q1, right>> >> ELSE <<>>
+               less == p1 - left                                 \* lessCount: the pivot ended up at p1
+               greater == right - p1
+               \* a part of two or more items is sorted: by a recursive call (depth + 1) or by the next round of the loop (same frame)
+               lrec == BoundedDepth => less < greater            \* the left part is the one handed to a recursive call
+               fl == IF less > 1 THEN << <<left, p0, IF lrec THEN dep + 1 ELSE dep>> >> ELSE <<>>
+               fr == IF greater > 1 THEN << <<q1, right, IF BoundedDepth /\ lrec THEN dep ELSE dep + 1>> >> ELSE <<>>
+               pend == IF lrec THEN fl \o fr ELSE fr \o fl         \* the recursive call runs to completion first
            IN /\ p1' = q1
-              /\ stack' = fl \o fr \o stack
-              /\ pc' = IF fl \o fr \o stack = <<>> THEN "done" ELSE "call"
-        /\ UNCHANGED <<left, right, p0, p2>>
+              /\ stack' = pend \o stack
+              /\ pc' = IF pend \o stack = <<>> THEN "done" ELSE "call"
+        /\ UNCHANGED <<left, right, p0, p2, dep, maxdep>>
 SNext == /\ (Start \/ Call \/ Loop \/ Post)
          /\ steps' = steps + 1 /\ UNCHANGED <<inp, st, last>>
 SSpec == SInit /\ [][SNext]_svars
@@ -67,4 +81,8 @@ ScanInRange == /\ pc = "loop" => (1 <= left /\ left <= p0 /\ p0 <= p1 /\ p1 <= p
 CallsOK == \A k \in 1..Len(stack) : 1 <= stack[k][1] /\ stack[k][1] < stack[k][2] /\ stack[k][2] <= N
 BagKept == SameBag(inp, vals)                                                  \* values are only ever swapped
 Terminates == steps <= 2 + 2 * N + N * N
+\* the recursion is never deeper than log2 of the length (+ 1): Log2Floor by repeated halving
+RECURSIVE Log2F(_)
+Log2F(n) == IF n <= 1 THEN 0 ELSE 1 + Log2F(n \div 2)
+DepthLog == maxdep <= Log2F(N) + 1
 ================================================================================
